@@ -112,6 +112,24 @@ NEEDS3 = {
  "C19B": ("src/edf/floating_nonpreemptive.rs: shifted search-space steps taken from the analysed task's RBF instead of the other task's", "different periods and a later release of the other task inside the busy window"),
 }
 
+NEEDS4 = {
+ "C03A": ("src/demand/slice.rs + aggregate.rs: steps_iter skips components whose least_wcet_in_interval(epsilon) is zero", "a non-scalar cost model with a zero-cost frame reached by the initial burst (Multiframe [5,3,0], jitter >= two periods): the task keeps its demand but loses its later steps"),
+ "C03B": ("src/fifo/rta.rs: early exit of the maximum over offsets, off by one (>= instead of >)", "the worst offset is the last step inside the busy window and exceeds all earlier ones by exactly one tick (needs jitter; 1.2 % of schedulable sets)"),
+ "C08A": ("src/fixed_point.rs search_with_offset: iteration starts at service_time(epsilon) instead of 1", "a supply with an initial blackout and a least solution shorter than the blackout (non-zero offset, or w(1) = 0, or a limit below the blackout)"),
+ "C08B": ("src/fixed_point.rs search_with_offset: loop condition rewritten in absolute time (offset + limit)", "non-zero offset and a divergence limit above u64::MAX - offset (\"no threshold\"): Err in release, panic with overflow checks"),
+ "C09A": ("src/supply/mod.rs default service_time: search starts at demand + epsilon", "a supply without blackout (budget = period) or zero demand, reached through the default implementation only"),
+ "C09B": ("src/supply/periodic.rs provided_service: debug_assert comparing with the linear lower bound by u64 cross-multiplication", "budget * delta >= 2^64 (nanosecond time base): panic with debug assertions only, no value changes"),
+ "C14A": ("src/wcet/curve.rs from_trace: first-sample branch pushes c instead of total_cost", "a cold-start trace whose first m jobs are the most expensive m-run"),
+ "C14B": ("src/wcet/curve.rs FromIterator: running maximum starts at index 2", "a non-monotone cumulative vector whose dip is at the second entry"),
+ "C15A": ("src/arrival/poisson.rs arrival_probability: ln k! by a truncated Stirling series for k >= 20", "epsilon below the lost probability mass (1e-9 with means 10..140): no termination / late quantile; pmf off by 1/(360 k^3)"),
+ "C15B": ("src/arrival/poisson.rs Poisson::approximate: arguments of ApproximatedPoisson::new swapped", "objects obtained through Poisson::approximate (no test uses that path)"),
+ "C16A": ("src/demand/rbf.rs: service_needed_by_n_jobs override with an 'all jobs cost the same' fast path keyed on cost_of_jobs(n) == n * cost_of_jobs(1)", "a multiframe with >= 3 distinct frames whose window average equals the first frame, and 0 < max_jobs < jobs"),
+ "C16B": ("src/demand/mod.rs default service_needed_by_n_jobs: ascending sort + skip(len - max_jobs) with plain subtraction", "a job limit above the number of jobs: panic with overflow checks, 0 in release"),
+ "C18A": ("src/fixed_priority/fully_preemptive.rs: 'no interference' shortcut returns rbf(1) when there are no interfering tasks", "a highest-priority (or single) task with release jitter and C + J > T: a later job of the busy window responds more slowly"),
+ "C20A": ("src/fixed_priority/fully_preemptive.rs: per-offset search gets the limit A + limit", "a divergence limit within a few ticks of u64::MAX and a busy window with at least two jobs of the analysed task: panic with overflow checks, bogus Err in release"),
+ "C20B": ("src/fifo/rta.rs: search space A <= closed_from_time_zero(L)", "a zero-demand workload (L = 0): underflow panic with overflow checks, Ok(0) in release"),
+}
+
 def rounds():
     for key, val in sorted(NEEDS.items()):
         yield key, val, f"/tmp/wt/out-{key[:3]}", [f"/tmp/seedres/{key}.recheck.txt", f"/tmp/seedres/{key}.quick.txt"], f"/tmp/seedres/{key}.quick.txt", f"{key[:3]}-{key[3]}", 1
@@ -122,11 +140,16 @@ def rounds():
         name = f"{key[:3]}-{'E' if key[3] == 'A' else 'F'}"
         yield key, val, f"/tmp/wt/out3-{key[:3]}", [f"/tmp/seedres/R3{key}.recheck.txt", f"/tmp/seedres/R3{key}.quick.txt"], f"/tmp/seedres/R3{key}.quick.txt", name, 3
 
+def rounds4():
+    for key, val in sorted(NEEDS4.items()):
+        name = f"{key[:3]}-{'G' if key[3] == 'A' else 'H'}"
+        yield key, val, f"/tmp/wt/out4-{key[:3]}", [f"/tmp/seedres/R4{key}.recheck.txt", f"/tmp/seedres/R4{key}.quick.txt"], f"/tmp/seedres/R4{key}.quick.txt", name, 4
+
 def main():
     root = "/verif/seeded"
     os.makedirs(root, exist_ok=True)
     index = []
-    for key, (change, needs), out, cands, basefile, name, rnd in rounds():
+    for key, (change, needs), out, cands, basefile, name, rnd in list(rounds()) + list(rounds4()):
         pid, v = key[:3], key[3]
         res = None
         # the newest confirmation run wins
